@@ -241,6 +241,52 @@ func codecStep(dir string, f []string) (res string) {
 			}
 		}
 		return "ok " + readFileHex(s.Log) + " " + readFileHex(s.Index) + extra + " steps=" + strings.Join(steps, ",")
+	case "migrate":
+		// migrate mv iv t k base loghex idxhex: Segment.Migrate with the FS tap; the files afterwards and the steps
+		p := index.Params{Times: f[3] == "1", Keys: f[4] == "1"}
+		s := putFiles(dir, atoi(f[5]), f[6], f[7])
+		var steps []string
+		nm := func(x string) string {
+			switch x {
+			case s.Log:
+				return "log"
+			case s.Log + ".migrate":
+				return "rtmp"
+			case s.Index:
+				return "idx"
+			case s.Index + ".tmp":
+				return "itmp"
+			}
+			return "?" + filepath.Base(x)
+		}
+		vhook.SetFS(func(kind, path string, n int64) {
+			parts := strings.Split(path, " ")
+			for i := range parts {
+				parts[i] = nm(parts[i])
+			}
+			ev := kind + ":" + strings.Join(parts, ">")
+			if kind == "write" || kind == "create" {
+				ev += fmt.Sprintf(":%d", n)
+			}
+			steps = append(steps, ev)
+		})
+		iv := index.V2
+		if f[2] == "1" {
+			iv = index.V1
+		}
+		err := s.Migrate(mver(f[1]), iv, p)
+		vhook.SetFS(nil)
+		if err != nil {
+			return "err " + errClass(err)
+		}
+		ents, _ := os.ReadDir(dir)
+		extra := ""
+		for _, en := range ents {
+			if filepath.Join(dir, en.Name()) != s.Log && filepath.Join(dir, en.Name()) != s.Index {
+				extra += " extra:" + strings.TrimLeft(en.Name(), "0")
+			}
+		}
+		return "ok " + readFileHex(s.Log) + " " + readFileHex(s.Index) + extra + " steps=" + strings.Join(steps, ",")
 	case "pubseg":
 		// pubseg t k base loghex idxhex msgs...: Open, Publish, Close on a directory with this one segment
 		p := index.Params{Times: f[1] == "1", Keys: f[2] == "1"}
